@@ -38,9 +38,9 @@ EXTRA = {
         "'reads successfully' = the default (raising) issue tracker raised nothing; inputs on which the pdtable "
         "read fails (mixed UTC offsets, out-of-range timestamps produced by the generator) are compared with the "
         "model only",
-        "well-formed inputs: every table has one unit per column name (a table without rows whose unit row is "
-        "shorter than its name row reads as a Table whose column register is shorter than its frame, on which "
-        "table_to_json_data raises IndexError — outside the quantifier, reported as an observation)",
+        "well-formed inputs: every table has one unit per column name (a unit row shorter than the name row is an "
+        "input error since /repo commit 7179188; before it a table without rows slipped through as a Table whose "
+        "column register was shorter than its frame, on which table_to_json_data raised IndexError)",
         "read_excel: the rows the reader is fed are what openpyxl delivers; the harness reads the same workbook "
         "with openpyxl directly to obtain them (openpyxl's coercions are not pdtable's)",
         "unknown output form: 'before anything is read' is observed as: no row requested from the row iterator "
@@ -378,8 +378,8 @@ def run(tier, seed, model_ok, translator, search=False):
                 "recording iterator / stream. Non-trivial: at least one table with a column and a row; distinct by rows.")
     rng = make_rng(seed, "C07")
     thorough = tier == "thorough" or search
-    n = 5000 if thorough else 700
-    n_x = 500 if thorough else 90
+    n = 14000 if thorough else 700
+    n_x = 1200 if thorough else 90
     ops, pend = [], []
     tmp = tempfile.mkdtemp(prefix="c07-")
     try:
@@ -416,7 +416,7 @@ def run(tier, seed, model_ok, translator, search=False):
                     "tables": [[s, k, nm] for s, k, nm in tables]}
             results = {f: read_blocks(api, src, f, filt_py) for f in FORMS}
             nontrivial = any(k.startswith("col:") for k in kinds) and any(k.startswith("rows:") and k != "rows:0" for k in kinds)
-            out.case(case, nontrivial=nontrivial)
+            c08.add_case(out, case, [api, case["rows"], filt_spec], nontrivial)
             out.count("api:" + api)
             for k in kinds:
                 out.count("el:" + k)
@@ -436,6 +436,29 @@ def run(tier, seed, model_ok, translator, search=False):
             if i % 10 == 0:
                 check_unknown_form(out, {"seed": seed, "index": i}, seen if api != "read_csv" else rows, text, xlsx,
                                    rng.choice(["bogus", "", "PDTABLE", "json", None, 5, "cellgrid "]))
+        # regression stream: a table without rows whose unit row is shorter than its name row (an input error since
+        # /repo 7179188; before, it read as a Table on which table_to_json_data raised IndexError)
+        for i in range(n // 25):
+            k = rng.randint(2, 4)
+            names = ["c%d" % j for j in range(k)]
+            units = [rng.choice(["m", "text", "onoff", "-"]) for _ in range(rng.randint(0, k - 1))]
+            rows = ([["a:", "b"], []] if rng.random() < 0.5 else []) + [["**t"], ["all"], names, units]
+            if rng.random() < 0.3:
+                rows += [[], ["**u"], ["all"], ["x"], ["-"], ["1"]]
+            tables = [(2 if rows[0][0] == "a:" else 0, 4, "t")] + ([(len(rows) - 5, 5, "u")] if rows[-1] == ["1"] else [])
+            case = {"seed": seed, "index": i, "stream": "short units", "api": "parse_blocks", "rows": grid_to_json(rows),
+                    "filter": None, "tables": [list(t) for t in tables]}
+            results = {f: read_blocks("parse_blocks", rows, f, None) for f in FORMS}
+            c08.add_case(out, case, ["short units", case["rows"]], False)
+            out.count("short unit row:" + ("read ok" if results["pdtable"][0] == "ok" else "fails:" + results["pdtable"][1]))
+            if results["pdtable"][0] == "ok":
+                oracle(out, case, "parse_blocks", rows, tables, None, results)
+            if model_ok:
+                for f in FORMS:
+                    op = bc.model_op(rows, to=f, filt=None, tracker="raising")
+                    op["op"] = "parse_blocks_json"
+                    ops.append(op)
+                    pend.append((f"parse_blocks(to={f})", case, canon_impl(*results[f])))
     finally:
         shutil.rmtree(tmp, ignore_errors=True)
 
